@@ -562,15 +562,15 @@ func (e *Exec) convert(st *State, v Val, from, to types.Type, where string) Val 
 
 func (e *Exec) typeAssert(st *State, x *ssa.TypeAssert, where string) {
 	v := e.get(st, x.X)
-	res := e.typeAssertVal(st, v, x, where)
+	res := e.typeAssertVal(st, v, x, where, e.S.True)
 	st.Regs[x] = res
 }
 
-func (e *Exec) typeAssertVal(st *State, v Val, x *ssa.TypeAssert, where string) Val {
+func (e *Exec) typeAssertVal(st *State, v Val, x *ssa.TypeAssert, where string, cond *Term) Val {
 	if it, ok := v.(*IfaceIte); ok {
 		// evaluate both sides under their conditions
-		a := e.typeAssertVal(st, it.A, x, where)
-		b := e.typeAssertVal(st, it.B, x, where)
+		a := e.typeAssertVal(st, it.A, x, where, e.S.And(cond, it.C))
+		b := e.typeAssertVal(st, it.B, x, where, e.S.And(cond, e.S.Not(it.C)))
 		return e.mergeVal(it.C, a, b)
 	}
 	iv, ok := v.(*IfaceV)
@@ -595,7 +595,7 @@ func (e *Exec) typeAssertVal(st *State, v Val, x *ssa.TypeAssert, where string) 
 		return TupleV{out, e.S.Bool(okb)}
 	}
 	if !okb {
-		e.abort(st, "panic", where, "type assertion failed")
+		e.abortIf(st, cond, "panic", where)
 	}
 	return out
 }
@@ -863,6 +863,7 @@ func (e *Exec) mapUpdate(st *State, m, k, v Val, where string) {
 		e.abort(st, "panic", where, "assignment to entry in nil map")
 		return
 	}
+	e.noteSharedWrite(st, mv.Obj, where)
 	nd := &MapData{Typ: md.Typ, Keys: append([]Val(nil), md.Keys...), Vals: append([]Val(nil), md.Vals...), Pres: make([]*Term, len(md.Keys))}
 	for i := range md.Keys {
 		nd.Pres[i] = e.pres(md, i)
@@ -932,6 +933,10 @@ type rangeIter struct {
 	vals []Val
 	pos  int
 	str  bool
+	// maps with conditionally present entries: entries are visited in list order, absent
+	// ones are skipped; posT is the (symbolic) index of the next candidate
+	pres []*Term
+	posT *Term
 }
 
 func (e *Exec) rangeInit(st *State, x *ssa.Range, where string) {
@@ -941,14 +946,27 @@ func (e *Exec) rangeInit(st *State, x *ssa.Range, where string) {
 		it := &rangeIter{}
 		if b.Obj != 0 {
 			md := st.Mem[b.Obj].(*MapData)
+			symbolic := false
 			for i, k := range md.Keys {
 				if _, conc := e.keyConc(k); !conc || !e.pres(md, i).IsTrue() {
-					e.unsupported(st, "range over a map with symbolic keys at "+where)
+					symbolic = true
 				}
 			}
-			for _, i := range sortMapKeys(md, e) {
-				it.keys = append(it.keys, md.Keys[i])
-				it.vals = append(it.vals, md.Vals[i])
+			if symbolic {
+				for i := range md.Keys {
+					if e.pres(md, i).IsFalse() {
+						continue
+					}
+					it.keys = append(it.keys, md.Keys[i])
+					it.vals = append(it.vals, md.Vals[i])
+					it.pres = append(it.pres, e.pres(md, i))
+				}
+				it.posT = e.S.Int(0)
+			} else {
+				for _, i := range sortMapKeys(md, e) {
+					it.keys = append(it.keys, md.Keys[i])
+					it.vals = append(it.vals, md.Vals[i])
+				}
 			}
 		}
 		id := e.newObj(st, nil, it)
@@ -987,6 +1005,37 @@ func (e *Exec) rangeNext(st *State, x *ssa.Next, where string) {
 	tt := x.Type().(*types.Tuple)
 	if it.pos >= len(it.keys) {
 		st.Regs[x] = TupleV{e.S.False, e.zeroVal(tt.At(1).Type()), e.zeroVal(tt.At(2).Type())}
+		return
+	}
+	if it.posT != nil {
+		s := e.S
+		n := len(it.keys)
+		ok := s.False
+		var k, v Val = e.zeroVal(tt.At(1).Type()), e.zeroVal(tt.At(2).Type())
+		newPos := s.Int(int64(n))
+		none := s.True // no earlier candidate taken
+		type cand struct {
+			c *Term
+			i int
+		}
+		var cs []cand
+		for i := it.pos; i < n; i++ { // every Next consumes at least one entry: candidates start at the call count
+			c := s.And(none, it.pres[i], s.Le(it.posT, s.Int(int64(i))))
+			none = s.And(none, s.Not(c))
+			if c.IsFalse() {
+				continue
+			}
+			cs = append(cs, cand{c, i})
+			ok = s.Or(ok, c)
+		}
+		for j := len(cs) - 1; j >= 0; j-- {
+			c, i := cs[j].c, cs[j].i
+			k = e.mergeVal(c, it.keys[i], k)
+			v = e.mergeVal(c, it.vals[i], v)
+			newPos = s.Ite(c, s.Int(int64(i+1)), newPos)
+		}
+		st.Mem[p.Obj] = &rangeIter{keys: it.keys, vals: it.vals, pres: it.pres, pos: it.pos + 1, posT: newPos}
+		st.Regs[x] = TupleV{ok, k, v}
 		return
 	}
 	k, v := it.keys[it.pos], it.vals[it.pos]
